@@ -1033,6 +1033,10 @@ class Table(Vector):
 	
 	def __mul__(self, other):
 		return self._table_elementwise_operation(other, operator.mul, '__mul__', '*')
+
+	def __rmul__(self, other):
+		# scalar * table: column by column like table * scalar (names kept), the scalar on the left
+		return self._table_elementwise_operation(other, lambda col, o: o * col, '__rmul__', '*')
 	
 	def __truediv__(self, other):
 		return self._table_elementwise_operation(other, operator.truediv, '__truediv__', '/')
